@@ -530,6 +530,7 @@ var c14ClauseTemplates = []string{
 	"SELECT CASE a WHEN $1 THEN $2 ELSE $3 END, IF(a = $2, $1, $3), COALESCE(NULL, $2), NULLIF(a, $1) FROM t",
 	"SELECT a + $1 AS x, COUNT(*) FROM t GROUP BY a + $1 HAVING COUNT(*) >= $1 ORDER BY x",
 	"SELECT SUBSTRING(b, $1, $1), LPAD(b, $3, '0'), ROUND(a / $3, $2), a % $2 FROM t",
+	"DECLARE c CURSOR FOR SELECT a FROM t; OPEN c; VAR @v; FETCH ABSOLUTE $1 c INTO @v; PRINT @v; FETCH RELATIVE $1 c INTO @v; PRINT @v; VAR @z := 100 + 1; PRINT @z; FETCH ABSOLUTE $1 c INTO @v; PRINT @v; FETCH RELATIVE $2 c INTO @v; PRINT @v; VAR @y := 50 + 2; FETCH ABSOLUTE $2 c INTO @v; PRINT @v",
 	"UPDATE t SET a = a + $1 WHERE a > $2; SELECT a FROM t",
 	"INSERT INTO t VALUES ($3 + 4, 'n'); SELECT a FROM t WHERE a > $3",
 }
